@@ -1,7 +1,7 @@
 #!/usr/bin/env python3
 import subprocess, sys, os, json, re, time
-WT=os.environ.get('C04_WT','/var/tmp/wt-c04r')
-LOGDIR=os.environ.get('C04_MUTLOG','/var/tmp/c04r2/mut')
+WT=os.environ.get('C04_WT','/var/tmp/wt-c04t')
+LOGDIR=os.environ.get('C04_MUTLOG','/var/tmp/c04r3/mut')
 os.makedirs(LOGDIR, exist_ok=True)
 ENV=dict(os.environ, GOFLAGS='-mod=mod', GOPROXY='off', GOSUMDB='off', GOTOOLCHAIN='local')
 def sh(cmd, cwd=None, timeout=3000, env=ENV):
@@ -194,7 +194,164 @@ func DiscardedShootSample() *Sample {
 	sample.SetUserNet(DiscardedShootCodeError)
 ''')],
 })
-PK={W:'./core/coreutil/...',I:'./core/engine/...',C:'./cli/...',S:'./core/aggregator/...',E:'./core/engine/...'}
+
+# ---- round 3: kinds not covered above (two files cooperating, periodic optimisation, far helpers, numeric/size boundaries,
+# two faults coinciding, state carried across loop iterations, an optimisation that is wrong on the second use)
+P='core/aggregator/netsample/phout.go'
+M.update({
+ 'q01-hysteresis-two-files': [(W,'''// IsSlowDown returns true, if schedule contains 2 elements before current time.''','''// Overdue returns how late the last waited event was.
+func (w *Waiter) Overdue() time.Duration { return w.overdueDuration }
+
+// IsSlowDown returns true, if schedule contains 2 elements before current time.'''),(I,'''	waiter := coreutil.NewWaiter(i.schedule)
+''','''	waiter := coreutil.NewWaiter(i.schedule)
+	catchingUp := false
+'''),(I,'''			if !i.discardOverflow || !waiter.IsSlowDown(ctx) {''','''			// once behind, keep discarding until half of the window is free again
+			slow := waiter.IsSlowDown(ctx) || (catchingUp && waiter.Overdue() >= coreutil.MaxOverdueDuration/2)
+			catchingUp = slow
+			if !i.discardOverflow || !slow {''')],
+ 'q02-one-waiter-per-shared-schedule': [(I,'''type instance struct {''','''// one Waiter per schedule: instances of a pool that share the schedule share its waiter
+var waiters sync.Map
+
+func waiterFor(s core.Schedule) *coreutil.Waiter {
+	if w, ok := waiters.Load(s); ok {
+		return w.(*coreutil.Waiter)
+	}
+	w, _ := waiters.LoadOrStore(s, coreutil.NewWaiter(s))
+	return w.(*coreutil.Waiter)
+}
+
+type instance struct {'''),(I,'''	waiter := coreutil.NewWaiter(i.schedule)
+''','''	waiter := waiterFor(i.schedule)
+'''),(I,'''	"io"
+''','''	"io"
+	"sync"
+''')],
+ 'q03-phout-drops-samples-without-rtt': [(P,'''func (a *phoutAggregator) handle(s *Sample) error {
+''','''func (a *phoutAggregator) handle(s *Sample) error {
+	if s.get(keyRTTMicro) == 0 && s.err == nil {
+		// nothing was measured
+		releaseSample(s)
+		return nil
+	}
+''')],
+ 'q04-net-code-kept-in-a-byte': [(S,'''func (s *Sample) set(k, v int)                       { s.fields[k] = v }''','''func (s *Sample) set(k, v int) {
+	if k == keyErrno {
+		v = int(uint8(v)) // errno fits a byte
+	}
+	s.fields[k] = v
+}''')],
+ 'q05-overdue-int32-milliseconds': [(W,'''	sched           core.Schedule
+	overdueDuration time.Duration
+''','''	sched     core.Schedule
+	overdueMs int32
+'''),(W,'''	case <-ctx.Done():
+		w.overdueDuration = 0
+		return false
+	default:
+	}
+	next, ok := w.sched.Next()
+	if !ok {
+		w.overdueDuration = 0
+		return false
+	}''','''	case <-ctx.Done():
+		w.overdueMs = 0
+		return false
+	default:
+	}
+	next, ok := w.sched.Next()
+	if !ok {
+		w.overdueMs = 0
+		return false
+	}'''),(W,'''		w.overdueDuration = w.lastNow.Sub(next)
+		return true''','''		w.overdueMs = int32(w.lastNow.Sub(next) / time.Millisecond)
+		return true'''),(W,'''		w.overdueDuration = 0 - waitFor
+		return true
+	}
+	w.overdueDuration = 0
+''','''		w.overdueMs = int32((0 - waitFor) / time.Millisecond)
+		return true
+	}
+	w.overdueMs = 0
+'''),(W,'return w.overdueDuration >= MaxOverdueDuration','return time.Duration(w.overdueMs)*time.Millisecond >= MaxOverdueDuration')],
+ 'q06-cancel-on-last-token-returns-true': [(W,'''	case <-w.timer.C:
+		return true
+	case <-ctx.Done():
+		return false
+	}''','''	case <-w.timer.C:
+		return true
+	case <-ctx.Done():
+		// do not lose the last event of the schedule
+		return w.sched.Left() == 0
+	}''')],
+ 'q07-clock-refreshed-every-64th-call': [(W,'''	timer   *time.Timer
+	lastNow time.Time
+''','''	timer   *time.Timer
+	lastNow time.Time
+	calls   uint
+'''),(W,'''		w.lastNow = time.Now()
+		w.overdueDuration = w.lastNow.Sub(next)
+		return true''','''		// events in the past come in bursts: one clock reading serves 64 of them
+		if w.calls%64 == 0 {
+			w.lastNow = time.Now()
+		}
+		w.calls++
+		w.overdueDuration = w.lastNow.Sub(next)
+		return true''')],
+ 'q08-sleep-capped-at-one-second': [(W,'''	w.overdueDuration = 0
+	// Lazy init.''','''	w.overdueDuration = 0
+	if waitFor > time.Second {
+		// wake up at least once a second
+		waitFor = time.Second
+	}
+	// Lazy init.''')],
+ 'q09-cli-default-inherited-from-previous-pool': [(C,'''		for i, pool := range pools {''','''		def := true
+		for i, pool := range pools {'''),(C,'''			if _, ok := poolMap["discard_overflow"]; !ok {
+				poolMap["discard_overflow"] = true
+			}''','''			if v, ok := poolMap["discard_overflow"].(bool); ok {
+				def = v
+			} else {
+				poolMap["discard_overflow"] = def
+			}''')],
+ 'q10-timer-not-rearmed-for-equal-interval': [(W,'''	timer   *time.Timer
+	lastNow time.Time
+''','''	timer   *time.Timer
+	lastNow time.Time
+	armed   time.Duration
+'''),(W,'''	if w.timer == nil {
+		w.timer = time.NewTimer(waitFor)
+	} else {
+		w.timer.Reset(waitFor)
+	}''','''	if w.timer == nil {
+		w.timer = time.NewTimer(waitFor)
+	} else if d := waitFor.Round(time.Millisecond); d != w.armed || d == 0 {
+		// a const schedule waits the same interval again and again
+		w.timer.Reset(waitFor)
+	}
+	w.armed = waitFor.Round(time.Millisecond)''')],
+ 'h07-harmless-ctx-err-instead-of-select': [(W,'''	select {
+	case <-ctx.Done():
+		return false
+	default:
+		return w.overdueDuration >= MaxOverdueDuration
+	}''','''	if ctx.Err() != nil {
+		return false
+	}
+	return w.overdueDuration >= MaxOverdueDuration'''),(W,'''	select {
+	case <-ctx.Done():
+		return true
+	default:
+		return w.sched.Left() == 0
+	}''','''	if ctx.Err() != nil {
+		return true
+	}
+	return w.sched.Left() == 0''')],
+ 'h08-harmless-window-in-milliseconds': [(W,'const MaxOverdueDuration = 2 * time.Second','const MaxOverdueDuration = 2000 * time.Millisecond')],
+ 'h09-harmless-discard-sample-local': [(I,'''				i.aggregator.Report(netsample.DiscardedShootSample())
+''','''				sample := netsample.DiscardedShootSample()
+				i.aggregator.Report(sample)
+''')],
+})
+PK={W:'./core/coreutil/...',I:'./core/engine/...',C:'./cli/...',S:'./core/aggregator/...',E:'./core/engine/...',P:'./core/aggregator/...'}
 def main():
     names=sys.argv[2:] or sorted(M)
     tier=sys.argv[1]
